@@ -3,7 +3,7 @@ import json, threading, time
 from concurrent.futures import ThreadPoolExecutor
 from vcheck import *
 from wcommon import *
-import c02_amode, c02_elide
+import c02_amode, c02_elide, c02_guard
 
 
 def run(tier, seed):
@@ -30,7 +30,7 @@ def run(tier, seed):
             if kind in shown: return
             shown.add(kind); ck.violation(kind, sig, detail, **kw)
     # the two direct streams run beside the end-to-end harness
-    pool = ThreadPoolExecutor(2)
+    pool = ThreadPoolExecutor(3)
     t0 = time.time()
     def stream(mod, name):
         try:
@@ -41,16 +41,19 @@ def run(tier, seed):
             return 0, 0, {}, []
     fut_a = pool.submit(stream, c02_amode, "amode")
     fut_e = pool.submit(stream, c02_elide, "elide")
+    fut_g = pool.submit(stream, c02_guard, "guard")
     rc, out = sh([binp, "-seed", str(seed), "-n", str(n), "-big", str(big)], timeout=2400)
     cases = [json.loads(l) for l in out.split("\n") if l.startswith("{")]
     na, da, dist_a, samp_a = fut_a.result()
     ne, de, dist_e, samp_e = fut_e.result()
-    ck.note("streams: amode %d cases, elide %d functions, end-to-end %d programs (harness phase %.1fs)" % (na, ne, len(cases), time.time() - t0))
+    ng, dg, dist_g, samp_g = fut_g.result()
+    ck.note("streams: amode %d cases, elide %d functions, guard %d calls (%d programs, %d at the last in-bounds position, %d children died), end-to-end %d programs (harness phase %.1fs)"
+            % (na, ne, ng, dist_g.get("programs", 0), dist_g.get("main_access_at_last_in_bounds_position", 0), dist_g.get("children_died", 0), len(cases), time.time() - t0))
     if rc != 0 or not cases:
         ck.violation("process-fault", {"kind": "process-fault"}, {"rc": rc, "tail": out[-3000:]})
         return ck.finish()
-    ck.cases = len(cases) * 2 + na + ne
-    dist = {"direct_amode": dist_a, "direct_elide": dist_e, "calls": 0, "outcomes": {}, "memories_above_2GiB": 0, "model_out_of_fuel": 0}
+    ck.cases = len(cases) * 2 + na + ne + ng
+    dist = {"direct_amode": dist_a, "direct_elide": dist_e, "guard": dist_g, "calls": 0, "outcomes": {}, "memories_above_2GiB": 0, "model_out_of_fuel": 0}
     for c in cases:
         if c["pages"] > 32768: dist["memories_above_2GiB"] += 1
         for o in (c["engines"]["compiler"].get("obs") or []):
@@ -58,8 +61,8 @@ def run(tier, seed):
             k = o.get("trap") or "values"
             dist["outcomes"][k] = dist["outcomes"].get(k, 0) + 1
     ck.dist = dist
-    ck.distinct = len(set(c["wasm"] for c in cases)) + da + de
-    ck.samples = [dict(pages=c["pages"], calls=c["calls"][:4], compiler=(c["engines"]["compiler"].get("obs") or [])[:4]) for c in cases[:3]] + samp_a + samp_e
+    ck.distinct = len(set(c["wasm"] for c in cases)) + da + de + dg
+    ck.samples = [dict(pages=c["pages"], calls=c["calls"][:4], compiler=(c["engines"]["compiler"].get("obs") or [])[:4]) for c in cases[:3]] + samp_a + samp_e + samp_g
     ck.extra["rule"] = ("functions with 2-5 loads/stores of every width (bases: parameter reused, derived, constants incl. >= 2^31; static offsets over the whole 32-bit range) "
                         "placed around calls, memory.grow, if/block/loop boundaries; memories of 1-3 pages and just above 2 GiB / just under 4 GiB; both engines vs W; distinct by module bytes. "
                         "Direct stream A: SSA trees (the frontend's shapes enumerated x all interesting offsets, then random trees over the whole of Amode.v's e64 incl. constants/offsets >= 2^31, "
